@@ -123,6 +123,19 @@ def _handler_forwards(f, h: ast.ExceptHandler):
             uses.append("wrapped in CoreCheckResult")
         elif last in ("SchemaError", "SchemaErrors", "_parse_schema_error", "_handle_schema_error") and mentions:
             uses.append("converted into a new schema error")
+        elif mentions and last.startswith("_"):
+            # a private helper next to the function that wraps / collects the error it is given
+            hlp = None
+            if isinstance(c.func, ast.Attribute) and isinstance(c.func.value, ast.Name) and c.func.value.id in ("self", "cls") and f.cls is not None:
+                hlp = f.cls.lookup(last)
+            elif isinstance(c.func, ast.Name):
+                hlp = f.module.functions.get(last)
+            if hlp is not None and hlp.module is f.module:
+                params = set(hlp.params)
+                for c2 in calls_in(hlp.node, nested=True):
+                    l2 = callee_last(c2)
+                    if l2 in ("CoreCheckResult", "SchemaError", "SchemaErrors", "collect_error", "collect_errors") and (names_in(c2) & params):
+                        uses.append("wrapped in CoreCheckResult" if l2 == "CoreCheckResult" else ("collected" if l2.startswith("collect") else "converted into a new schema error"))
     for s in ast.walk(h):
         if isinstance(s, (ast.ListComp, ast.GeneratorExp)) and name is not None and any(name in names_in(g.iter) for g in s.generators):
             if any(callee_last(c) in ("CoreCheckResult", "SchemaError") for c in calls_in(s.elt, nested=True)) or \
